@@ -38,7 +38,8 @@ CONSTANTS N,            \* number of source slots (a slot is re-used with a fres
           MaxSteer,     \* algorithm.maximum-frequency-steer (ppm)
           SlewMax,      \* algorithm.slew-maximum-frequency-offset (ppm)
           MaxSamples,   \* measurements per source handle (1 or 2; < 8 keeps the source in its initial phase)
-          Ghosts        \* whether forged data for removed sources is generated (tracks `had`)
+          Ghosts,       \* whether forged data for removed sources is generated (tracks `had`)
+          Readd         \* whether a quiescent slot may be used again for a new source
 
 ASSUME TrackFreq => N = 1
 ASSUME ~TrackFreq => StepThresh = 0      \* without frequency tracking no slew may start
@@ -51,7 +52,7 @@ Clamp(x, m) == IF x > m THEN m ELSE IF x < -m THEN -m ELSE x
 
 NoSnap == [has |-> FALSE, off |-> 0, t |-> 0, leap |-> "none", wide |-> FALSE]
 NoSv   == [n |-> 0, off |-> 0, wide |-> FALSE]
-InitSrc == [alive |-> FALSE, reg |-> FALSE, usable |-> FALSE, had |-> FALSE, sv |-> NoSv, snap |-> NoSnap]
+InitSrc == [alive |-> FALSE, reg |-> FALSE, usable |-> FALSE, had |-> FALSE, was |-> FALSE, sv |-> NoSv, snap |-> NoSnap]
 InitState == [src |-> [i \in Slots |-> InitSrc], chan |-> <<>>, inStartup |-> TRUE, acc |-> 0, slew |-> 0,
               leap |-> "unknown", used |-> {}, dead |-> FALSE, clk |-> 0, f |-> IF F0Neg THEN -F0 ELSE F0]
 
@@ -76,7 +77,7 @@ StepAllowed(s, c) ==
 (***************************************************************************)
 Enabled(s, a) ==
   /\ ~s.dead
-  /\ CASE a.t = "Add"     -> ~s.src[a.i].alive /\ ~s.src[a.i].reg /\ ~InChan(s, a.i)
+  /\ CASE a.t = "Add"     -> ~s.src[a.i].alive /\ ~s.src[a.i].reg /\ ~InChan(s, a.i) /\ (Readd \/ ~s.src[a.i].was)
        [] a.t = "Meas"    -> /\ s.src[a.i].alive /\ s.src[a.i].sv.n < MaxSamples
                              /\ (s.src[a.i].sv.n = 1 => (s.src[a.i].sv.off + a.off) % 2 = 0)
        [] a.t = "Usable"  -> s.src[a.i].alive
@@ -96,7 +97,9 @@ Age(s, time) ==
        ELSE s.src[i]]]
 
 \* kalman/mod.rs:330 steer_frequency (+ process_frequency_steering of every stored snapshot at clock.now()).
-\* ppm arithmetic: (1+f)(1+c)-1 is f+c up to 1e-7 ppm-relative, the clamp is exact.
+\* Frequencies in whole ppm: new = clamp((1+f)(1+c)-1) = clamp(f + c + f*c); the second-order term (< 0.3 ppm per
+\* call, reset by every saturation) is dropped, the harness compares values with a tolerance of 8 ppm and checks the
+\* configured bound itself exactly (out.freqOk).
 SteerFreq(so, change) ==
   LET s == so[1]
       nf == Clamp(s.f + change, MaxSteer)
@@ -171,7 +174,8 @@ RecvSO(s) ==
 Msg(i, k) == [i |-> i, k |-> k, off |-> 0, tm |-> 0, leap |-> "none", wide |-> FALSE, b |-> FALSE]
 
 SO(s, a) ==
-  CASE a.t = "Add"    -> << [s EXCEPT !.src[a.i] = [InitSrc EXCEPT !.alive = TRUE, !.reg = TRUE]], NoOut >>
+  CASE a.t = "Add"    -> \* a re-used slot gets a fresh ClockId: a stale listing of the old id in `used` no longer refers to it
+                         << [s EXCEPT !.src[a.i] = [InitSrc EXCEPT !.alive = TRUE, !.reg = TRUE, !.was = ~Readd], !.used = @ \ {a.i}], NoOut >>
     [] a.t = "Meas"   -> LET sv == s.src[a.i].sv
                              mean == IF sv.n = 0 THEN a.off ELSE (sv.off + a.off) \div 2
                              nsv == [n |-> sv.n + 1, off |-> mean, wide |-> sv.wide \/ a.wide]
@@ -297,7 +301,7 @@ ConeTable ==
     Meas    |-> [C01 |-> {}, C02 |-> {}, C03 |-> {}, C04 |-> {}, C37 |-> {"src", "chan"}],
     Usable  |-> [C01 |-> {}, C02 |-> {}, C03 |-> {}, C04 |-> {}, C37 |-> {"src", "chan"}],
     Drop    |-> [C01 |-> {}, C02 |-> {}, C03 |-> {}, C04 |-> {}, C37 |-> {"src", "chan"}],
-    SlewEnd |-> [C01 |-> {"out.steps", "out.exit"}, C02 |-> {"out.freqs", "out.freqOk", "slew", "f"},
+    SlewEnd |-> [C01 |-> {}, C02 |-> {"out.freqs", "out.freqOk", "slew", "f"},
                  C03 |-> {}, C04 |-> {}, C37 |-> {}],
     Ghost   |-> [C01 |-> {}, C02 |-> {}, C03 |-> {}, C04 |-> {},
                  C37 |-> {"src", "used", "clk", "out.err", "out.steps", "out.freqs", "out.status"}] ]
